@@ -346,6 +346,14 @@ class Executor:
         if is_z3(off):
             offs = self.resolve_ite(st, off)
             off = offs
+            if r.size is None and r.lazy and not z3.is_bv_value(offs) and self.bounded_symoff:
+                vals = self.enumerate_offset(st, offs)
+                if vals is not None:
+                    for cand in vals[:-1]:
+                        if self.decide(st, offs == z3.BitVecVal(cand, offs.size())):
+                            return self.load(st, Ptr(p.rid, to_signed(cand, 64)), ty)
+                    st.add(offs == z3.BitVecVal(vals[-1], offs.size()))
+                    return self.load(st, Ptr(p.rid, to_signed(vals[-1], 64)), ty)
             if r.size is None and r.lazy and not z3.is_bv_value(offs):
                 # array-like select on an object of unknown extent: one symbolic cell per offset term
                 key = ('symoff', offs.get_id(), self.m.sizeof(ty))
@@ -499,6 +507,14 @@ class Executor:
         if is_z3(off):
             offs = self.resolve_ite(st, off)
             off = offs
+            if r.size is None and r.lazy and not z3.is_bv_value(offs) and self.bounded_symoff:
+                vals = self.enumerate_offset(st, offs)
+                if vals is not None:
+                    for cand in vals[:-1]:
+                        if self.decide(st, offs == z3.BitVecVal(cand, offs.size())):
+                            return self.store(st, Ptr(p.rid, to_signed(cand, 64)), ty, v)
+                    st.add(offs == z3.BitVecVal(vals[-1], offs.size()))
+                    return self.store(st, Ptr(p.rid, to_signed(vals[-1], 64)), ty, v)
             if r.size is None and r.lazy and not z3.is_bv_value(offs):
                 if r.const:
                     r = r.copy(); r.const = False; st.mem[r.rid] = r
@@ -524,6 +540,7 @@ class Executor:
             self.write_hook(st, r, off, size, v)
 
     write_hook = None
+    bounded_symoff = True
 
     def resolve_ite(self, st, e):
         """decide the conditions of if-then-else subterms of an offset until it is constant or ite-free"""
@@ -593,6 +610,31 @@ class Executor:
                     if b > off + size:
                         newf.append((off + size, b, byte))
             r.fills = newf
+
+    def enumerate_offset(self, st, offs, limit=8):
+        """feasible values of a symbolic offset under the path condition, if there are at most `limit` of them"""
+        key = ('enumoff', offs.get_id(), len(st.pc))
+        sv = z3.Solver()
+        sv.set('timeout', 5000)
+        sv.add(*st.pc)
+        vals = []
+        for _ in range(limit + 1):
+            t0 = time.time()
+            r = sv.check()
+            self.stats['solver_calls'] += 1
+            self.stats['solver_s'] += time.time() - t0
+            if r != z3.sat:
+                if r == z3.unknown:
+                    return None
+                break
+            v = sv.model().eval(offs, model_completion=True)
+            if not z3.is_bv_value(v):
+                return None
+            vals.append(v.as_long())
+            sv.add(offs != v)
+        if len(vals) > limit or not vals:
+            return None
+        return vals
 
     def concretize_offset(self, st, r, off, size, write=False):
         """symbolic offset: fork over the feasible in-bounds values; report feasibility of OOB"""
